@@ -272,12 +272,13 @@ func (u *multiUpdateExecutor) buildBeforeImageSQL(args []driver.NamedValue, meta
 		if undo.UndoConfig.OnlyCareUpdateColumns {
 			//select update columns
 			for _, column := range updateStmt.List {
-				if _, exist := fieldsExits[column.Column.String()]; exist {
+				// (by its own name: the statements may qualify it differently - c, t.c, a.c)
+				if _, exist := fieldsExits[column.Column.Name.O]; exist {
 					continue
 				}
 
-				fieldsExits[column.Column.String()] = struct{}{}
-				fields = append(fields, &ast.SelectField{Expr: &ast.ColumnNameExpr{Name: column.Column}})
+				fieldsExits[column.Column.Name.O] = struct{}{}
+				fields = append(fields, &ast.SelectField{Expr: &ast.ColumnNameExpr{Name: &ast.ColumnName{Name: column.Column.Name}}})
 			}
 
 			for _, columnName := range meta.GetPrimaryKeyOnlyName() {
@@ -314,7 +315,7 @@ func (u *multiUpdateExecutor) buildBeforeImageSQL(args []driver.NamedValue, meta
 		newArgs = append(newArgs, u.buildSelectArgs(&tmpSelectStmt, args)...)
 
 		in := bytes.NewByteBuffer([]byte{})
-		_ = updateStmt.Where.Restore(format.NewRestoreCtx(format.RestoreKeyWordUppercase, in))
+		_ = restoreUnqualified(updateStmt.Where, format.NewRestoreCtx(format.RestoreKeyWordUppercase, in))
 
 		if whereCondition.Len() > 0 {
 			whereCondition.Write([]byte(" OR "))
